@@ -112,6 +112,9 @@ impl<'a, 'tcx> D<'a, 'tcx> {
             }
             _ => {}
         }
+        if let Const::Ty(_, tc) = c {
+            v.push(("cty", J::s(format!("{}", tc))));
+        }
         if let Const::Unevaluated(u, _) = c {
             v.push(("unevaluated", J::s(self.cx.path(u.def))));
             if u.promoted.is_some() {
